@@ -564,7 +564,7 @@ class NDNApp:
         final_name = [bytes(c) for c in final_name]
         future = aio.get_running_loop().create_future()
         # Handle implicit SHA256
-        if enc.Component.get_type(final_name[-1]) == enc.Component.TYPE_IMPLICIT_SHA256:
+        if final_name and enc.Component.get_type(final_name[-1]) == enc.Component.TYPE_IMPLICIT_SHA256:
             node_name = final_name[:-1]
             implicit_sha256 = enc.Component.get_value(final_name[-1])
         else:
